@@ -6,10 +6,12 @@ sys.path.insert(0, os.path.join(VERIF, "bin"))
 from vconfig import CHECKS, NOT_APPLICABLE, HOOK_COMMITS
 
 props = [json.loads(l) for l in open(os.path.join(VERIF, "properties.jsonl"))]
+# only checks that were validated by the lead are claimed (bin/claimed.txt, one id per line)
+CLAIMED = set(open(os.path.join(VERIF, "bin", "claimed.txt")).read().split())
 checks = []
 for p in props:
     pid = p["id"]
-    if pid not in CHECKS or pid in NOT_APPLICABLE:
+    if pid not in CHECKS or pid in NOT_APPLICABLE or pid not in CLAIMED:
         continue
     c = CHECKS[pid]
     checks.append({
@@ -39,7 +41,7 @@ m = {
     ],
     "checks": checks,
     "not_applicable": [{"property_id": p["id"], "reason": NOT_APPLICABLE.get(p["id"], "check not built yet (work in progress); see DESIGN.md section 5")}
-                       for p in props if p["id"] not in CHECKS or p["id"] in NOT_APPLICABLE],
+                       for p in props if p["id"] not in CHECKS or p["id"] in NOT_APPLICABLE or p["id"] not in CLAIMED],
     "notes": "All commands run with cwd=/verif. VERIF_SEED selects the rapid seeds (seed*1000003+shard). Exit 2 = inconclusive.",
 }
 json.dump(m, open(os.path.join(VERIF, "MANIFEST.json"), "w"), indent=1)
